@@ -7,8 +7,8 @@ Full statement aimed at: for every handler `h` with `∀ e s, erase (h e s).1 = 
 table and the user data, whatever callbacks it registers or removes from inside the call),
 `erase (processH cfg h s g).1 = erase (process cfg s g).1` — the nested-call form of C15's "who listens does not influence
 what is decoded". Proved so far (`…_erase`, each in the congruence form `erase s = erase t → …`): `setFieldH`, `addAfH`,
-`groupCommonH` (PI/PTY/TP), `group1H` (ECC and country, including the PI read after the ECC callback), `group4H`, `group10H`.
-Missing: `group0H`, `group2H` and hence `processH` (the straightforward script times out in `whnf`; not finished).
+`groupCommonH` (PI/PTY/TP), `group0H` (TA/MS, PS, AF), `group1H` (ECC and country, including the PI read after the ECC
+callback), `group4H`, `group10H`. Missing: `group2H` and hence `processH` (not finished).
 -/
 namespace RDS
 
@@ -105,6 +105,64 @@ theorem group10H_erase (cfg : Cfg) (h : Handler) (ho : h.ObserverOnly) {s t : St
   · split
     · rw [emitH_erase h ho]; cases s; cases t; simp only [erase, State.mk.injEq] at hst ⊢; simp_all
     · cases s; cases t; simp only [erase, State.mk.injEq] at hst ⊢; simp_all
+  · exact hst
+
+theorem erase_setPs {s t : State} (hst : erase s = erase t) (p : Text) :
+    erase { s with ps := p } = erase { t with ps := p } := by
+  cases s; cases t; simp only [erase, State.mk.injEq] at hst ⊢; simp_all
+
+def g0psH (cfg : Cfg) (h : Handler) (r : State) (g : Group) : State :=
+  let u := parserUpdate cfg r.set r.ps .ps g.d g.eb g.ed (2 * (g.b % 4))
+  (if u.2 then emitH h { r with ps := u.1 } .ps .ps else ({ r with ps := u.1 }, [])).1
+
+def g0ps (cfg : Cfg) (r : State) (g : Group) : State :=
+  { r with ps := (parserUpdate cfg r.set r.ps .ps g.d g.eb g.ed (2 * (g.b % 4))).1 }
+
+def g0afH (h : Handler) (e : State) (g : Group) : State :=
+  if !g.versionB && g.eb = 0 && g.ec = 0 && g.c / 256 % 256 != 250 then
+    (addAfH h (addAfH h e (g.c / 256 % 256)).1 (g.c % 256)).1
+  else e
+
+def g0af (e : State) (g : Group) : State :=
+  if !g.versionB && g.eb = 0 && g.ec = 0 && g.c / 256 % 256 != 250 then
+    (addAf (addAf e (g.c / 256 % 256)).1 (g.c % 256)).1
+  else e
+
+theorem g0ps_erase (cfg : Cfg) (h : Handler) (ho : h.ObserverOnly) {r q : State} (hrq : erase r = erase q) (g : Group) :
+    erase (g0psH cfg h r g) = erase (g0ps cfg q g) := by
+  obtain ⟨_, _, hs, hps, _⟩ := erase_fields hrq
+  unfold g0psH g0ps
+  simp only [hs, hps]
+  split
+  · rw [emitH_erase h ho]; cases r; cases q; simp only [erase, State.mk.injEq] at hrq ⊢; simp_all
+  · cases r; cases q; simp only [erase, State.mk.injEq] at hrq ⊢; simp_all
+
+theorem g0af_erase (h : Handler) (ho : h.ObserverOnly) {e s2 : State} (h3 : erase e = erase s2) (g : Group) :
+    erase (g0afH h e g) = erase (g0af s2 g) := by
+  unfold g0afH g0af
+  split
+  · exact addAfH_erase h ho (addAfH_erase h ho h3 _) _
+  · exact h3
+
+theorem group0H_eq (cfg : Cfg) (h : Handler) (s : State) (g : Group) :
+    (group0H cfg h s g).1 = g0afH h (g0psH cfg h (if g.eb = 0 then (setFieldH h (setFieldH h s .ta (g.b / 16 % 2 : Nat)).1 .ms (g.b / 8 % 2 : Nat)).1 else s) g) g := by
+  unfold group0H g0afH g0psH
+  simp only []
+  split <;> split <;> rfl
+
+theorem group0_eq (cfg : Cfg) (s : State) (g : Group) :
+    (group0 cfg s g).1 = g0af (g0ps cfg (if g.eb = 0 then (setField (setField s .ta (g.b / 16 % 2 : Nat)).1 .ms (g.b / 8 % 2 : Nat)).1 else s) g) g := by
+  unfold group0 g0af g0ps
+  simp only []
+  split <;> split <;> rfl
+
+theorem group0H_erase (cfg : Cfg) (h : Handler) (ho : h.ObserverOnly) {s t : State} (hst : erase s = erase t) (g : Group) :
+    erase (group0H cfg h s g).1 = erase (group0 cfg t g).1 := by
+  rw [group0H_eq, group0_eq]
+  apply g0af_erase h ho
+  apply g0ps_erase cfg h ho
+  split
+  · exact setFieldH_erase h ho (setFieldH_erase h ho hst _ _) _ _
   · exact hst
 
 end RDS
